@@ -108,6 +108,8 @@ func (p Printer) expr(e Expr, min int) string {
 			parts[i] = p.expr(x, 0)
 		}
 		return "[" + strings.Join(parts, ", ") + "]"
+	case Hash:
+		return p.hash(t.KVs)
 	case Idx:
 		return p.expr(t.X, lvlAtom) + "[" + p.expr(t.I, 0) + "]"
 	case Call:
